@@ -4,6 +4,8 @@
   lean/Varlink/Service.lean (`getInfoReply`, `Registry.description`, the built-in dispatcher).
 -/
 import Varlink.Registry
+import Varlink.Lifecycle
+import VarlinkProofs.Lemmas.LifecycleInv
 import Varlink.Extracted.Code
 import Varlink.ExpectedCode
 import Varlink.JsonWF
@@ -312,6 +314,34 @@ example : (s0.step (.register (str "a.b") (str "interface a.b"))).2 = .ok := by 
 example : (s1.step (.register (str "a.b") (str "other"))).2 = .refusedDuplicate := by decide
 example : (((s1.step .listenStarts).1).step (.register (str "c.d") [])).2 = .refusedRunning := by decide
 example : s1.reg.names = [orgVarlinkService, str "a.b"] := by decide
+
+/-! ### the registration guard is the lifecycle's (C14) -/
+
+/-- the registration history abstracts a lifecycle state to `running` and the number of counted connections -/
+def regView (r : Registry) (w : Life.World) : RegState := { reg := r, running := w.running, conns := w.counter.toNat }
+
+/-- **The guard used in the registration histories is the one the lifecycle transition system of C14 has**: in
+    every reachable lifecycle state — any interleaving of serving calls, connections, shutdown, faults — a
+    registration of a new name is refused by the history model exactly when `RegisterInterface` is refused there
+    (`running` or a connection still counted), and is accepted otherwise. -/
+theorem register_guard_is_the_lifecycles (r : Registry) {w : Life.World} (h : Life.Reachable w)
+    (n d : Bytes) (hnew : isRegistered (regView r w) n = false) :
+    (((regView r w).step (.register n d)).2 = .refusedRunning ↔ Life.registerRefused w = true) ∧
+    (((regView r w).step (.register n d)).2 = .ok ↔ Life.registerRefused w = false) := by
+  have hc : w.counter = Life.cnt Life.cntd w.conns := (Life.inv_reachable h).counterOk
+  have hnn : (0 : Int) ≤ w.counter := by rw [hc]; unfold Life.cnt; exact Int.natCast_nonneg _
+  have hpos : (w.counter.toNat > 0) ↔ (w.counter > 0) := by omega
+  have hnew' : (n = orgVarlinkService || (r.ifaces.map (·.1)).contains n) = false := by
+    simpa [isRegistered, regView] using hnew
+  simp only [RegState.step, isRegistered, regView, hnew', Life.registerRefused]
+  by_cases hr : w.running = true
+  · simp [hr]
+  · have hr' : w.running = false := by simpa using hr
+    by_cases hcnt : w.counter > 0
+    · have : w.counter.toNat > 0 := hpos.mpr hcnt
+      simp [hr', hcnt, this]
+    · have : ¬ (w.counter.toNat > 0) := fun hh => hcnt (hpos.mp hh)
+      simp [hr', hcnt, this]
 
 /-- **Tie to the source**: the declarations of /repo that this property's model transliterates
     (`Extracted.codeNames_C13`) have, in the current working tree, exactly the fingerprints of the code the
